@@ -569,4 +569,157 @@ theorem clay_clearRrs (s : State) {b : Body} (h : CLay s b) (hI : I s) : CLay (c
     unfold pend
     simp
 
+
+/-! ### templates, whole sessions -/
+
+theorem clay_template {s s' : State} {b : Body} {t : Template} (h : CLay s b) (hI : I s) (buf : Bytes)
+    (ts : Option Tsig) (hsome : ts.isSome = s.tsig.isSome)
+    (ht : intoTemplate s = .ok t) (h' : tryFromTemplateImpl buf t ts = .ok s') : CLay s' b := by
+  have hi := hI.inv
+  have h1 := hi.hdr; have h2 := hi.cur_av; have h3 := hi.av_lim; have h4 := hi.lim_size
+  unfold intoTemplate at ht
+  rw [if_neg (by omega), if_neg (by omega)] at ht
+  cases ht
+  unfold tryFromTemplateImpl at h'
+  simp only [extract_toList_length _ _ (show s.cursor ≤ s.octets.size by omega)] at h'
+  split at h'
+  · cases h'
+  · split at h'
+    · cases h'
+    · cases h'
+      refine clay_congr h hI.winv hi.rr_hi ?_ rfl rfl (fun _ hg => hg) rfl rfl rfl rfl ?_ rfl
+      · intro i _ hi'
+        have := writeAt_get_in buf 0 (List.take s.cursor s.octets.toList) i (by simp; omega) (by simp; omega)
+        simp only [Nat.zero_add] at this
+        simp only [Array.toList_extract, List.extract_eq_take_drop, Nat.sub_zero, List.drop_zero]
+        rw [this, List.getElem?_take]
+        simp [hi']
+      · unfold pend
+        show _ + (if ts.isSome then 1 else 0) = _
+        rw [hsome]
+
+theorem clay_retemplate {ss : Session} {b : Body} (h : CLay ss.w b) (hI : I ss.w) (n : Nat) (fill : UInt8)
+    (mk : Bytes → Template → Out WriterErr State) (hmk : MkOK mk) :
+    CLay (retemplate ss n fill mk).2.w b := by
+  obtain ⟨t, ht⟩ := intoTemplate_ok hI.inv
+  have htt := intoTemplate_tsig ht
+  unfold retemplate
+  rw [ht]
+  simp only []
+  obtain ⟨sf, hsf⟩ := tryFromTemplate_fallback_ok fill hI.inv ht
+  have hlf : CLay sf b := clay_template h hI _ t.tsig (by rw [htt]) ht hsf
+  cases hm : mk (Array.replicate n fill) t with
+  | ok s' =>
+    simp only []
+    obtain ⟨ts, h1, h2⟩ := hmk.1 _ _ _ hm
+    refine clay_template h hI _ ts ?_ ht h1
+    rcases h2 with he | ⟨ts0, ts1, h0, h1', _⟩
+    · rw [he, htt]
+    · rw [h1', ← htt, h0]; rfl
+  | err e => simp only []; rw [hsf]; exact hlf
+  | panic => simp only []; rw [hsf]; exact hlf
+
+theorem clay_liftW {ss : Session} {f : M Unit} {b : Body} (h : CLay (f ss.w).2 b) : CLay (liftW ss f).2.w b := by
+  unfold liftW
+  cases hf : f ss.w with
+  | mk r s1 => rw [hf] at h; exact h
+
+/-- **every public call keeps the layout**: a successful call adds exactly what it was given, a
+    failed call changes nothing — in every compression mode -/
+theorem clay_step (ss : Session) (op : Op) (b : Body) (hI : I ss.w) (h : CLay ss.w b) (hop : OpOK ss op) :
+    CLay (step ss op).2.w (if (step ss op).1 = .ok () then bodyStep b op else b) := by
+  have hnp := (step_I ss op hI hop).1
+  -- failed calls: nothing changed
+  by_cases herr : ∃ e, (step ss op).1 = .err e
+  · obtain ⟨e, he⟩ := herr
+    rw [he]
+    simp only [reduceCtorEq, if_false]
+    exact clay_same h hI (step_err_same ss op hI.inv e he)
+  have hok : (step ss op).1 = .ok () := by
+    cases hr : (step ss op).1 with
+    | ok u => rfl
+    | err e => exact absurd ⟨e, hr⟩ herr
+    | panic => exact absurd hr hnp
+  rw [hok]
+  simp only [if_true]
+  have lw : ∀ {f : M Unit}, (∀ s, HdrOnly s (f s).2) → CLay (liftW ss f).2.w b := fun hf =>
+    clay_liftW (clay_hdrOnly h hI (hf ss.w))
+  cases op with
+  | setId v => exact lw (hdrOnly_write _ _ (by show _ + 2 ≤ 12; decide))
+  | setQr b' => exact lw (hdrOnly_setHdr _ _ (by decide))
+  | setAa b' => exact lw (hdrOnly_setHdr _ _ (by decide))
+  | setTc b' => exact lw (hdrOnly_setHdr _ _ (by decide))
+  | setRd b' => exact lw (hdrOnly_setHdr _ _ (by decide))
+  | setRa b' => exact lw (hdrOnly_setHdr _ _ (by decide))
+  | setOpcode v => exact lw (hdrOnly_setHdr _ _ (by decide))
+  | setRcode v => exact lw (hdrOnly_setRcode v)
+  | setExtendedRcode v => exact lw (f := setExtendedRcode v) (hdrOnly_setExtendedRcode v)
+  | setLimit v => exact lw (hdrOnly_setLimit v)
+  | setMode m => exact clay_liftW (clay_setMode m ss.w h)
+  | addQuestion n t c =>
+    simp only [step, liftW] at hok ⊢
+    cases hq : addQuestion n t c ss.w with
+    | mk r s1 =>
+      rw [hq] at hok
+      simp only at hok
+      subst hok
+      exact clay_addQuestion n t c ss.w s1 hI h hop hq
+  | addRr sec hn o ty cls ttl rd hv =>
+    simp only [step] at hok ⊢
+    rw [withHv_fst] at hok
+    rw [withHv_w]
+    have hI0 := i_hv ss.w (hv.map (hvGet ss.hvs)) hI
+    have h0 := clay_hv ss.w (hv.map (hvGet ss.hvs)) h
+    cases hq : addRrOp sec (resolveHint ss.hvs hn) o ty cls ttl rd { ss.w with hv := hv.map (hvGet ss.hvs) } with
+    | mk r s1 =>
+      rw [hq] at hok
+      simp only at hok
+      subst hok
+      exact clay_hv _ none (clay_addRrOp sec _ o ty cls ttl rd _ s1 hI0 h0 hop.1 hop.2 hq)
+  | addRrset sec hn o ty cls ttl rds hv =>
+    simp only [step] at hok ⊢
+    rw [withHv_fst] at hok
+    rw [withHv_w]
+    have hI0 := i_hv ss.w (hv.map (hvGet ss.hvs)) hI
+    have h0 := clay_hv ss.w (hv.map (hvGet ss.hvs)) h
+    cases hq : addRrsetOp sec (resolveHint ss.hvs hn) o ty cls ttl rds { ss.w with hv := hv.map (hvGet ss.hvs) } with
+    | mk r s1 =>
+      rw [hq] at hok
+      simp only at hok
+      subst hok
+      exact clay_hv _ none (clay_addRrsetOp sec _ o ty cls ttl rds _ s1 hI0 h0 hop.1 hop.2 hq)
+  | clearRrs => exact clay_liftW (clay_clearRrs ss.w h hI)
+  | setEdns p => exact clay_liftW (clay_setEdns p ss.w h)
+  | setTsig m rr => exact clay_liftW (clay_setTsig m rr ss.w h)
+  | updateTimeSigned t => exact lw (hdrOnly_updateTimeSigned t)
+  | template n fill => exact clay_retemplate h hI n fill _ mkOK_tryFromTemplate
+  | templateSubsequent n fill mac => exact clay_retemplate h hI n fill _ (mkOK_subsequent mac)
+  | getters => exact h
+
+/-- **for all sequences of calls that respect the contract**, in every compression mode -/
+theorem clay_run (ss : Session) (ops : List Op) (b : Body) (hI : I ss.w) (h : CLay ss.w b)
+    (hr : Respects ss ops) : CLay (run ss ops).1.w (bodyRun b ops (run ss ops).2) := by
+  induction ops generalizing ss b with
+  | nil => exact h
+  | cons op ops ih =>
+    obtain ⟨hop, hrest⟩ := hr
+    obtain ⟨hnp, hI'⟩ := step_I ss op hI hop
+    have hs' := clay_step ss op b hI h hop
+    unfold run
+    cases hs : step ss op with
+    | mk r ss' =>
+      rw [hs] at hnp hI' hrest hs'
+      cases r with
+      | panic => exact absurd rfl hnp
+      | ok u =>
+        simp only [] at hs' ⊢
+        have := ih ss' _ hI' (by simpa using hs') hrest
+        cases hrun : run ss' ops with
+        | mk ss'' rs => rw [hrun] at this; simpa [bodyRun] using this
+      | err e =>
+        simp only [] at hs' ⊢
+        have := ih ss' _ hI' (by simpa using hs') hrest
+        cases hrun : run ss' ops with
+        | mk ss'' rs => rw [hrun] at this; simpa [bodyRun] using this
+
 end QV.Writer
